@@ -1,10 +1,8 @@
 /-
-C03 at character level, lexer part 3: the whole token sequence of a canonical rendering, as a `Run`.
-
-`Ctx` is the account kept while walking along the rendered token list: indent type, completed lines, the current line (start,
-indentation) and the position right after the last token.  `stAt src c rs j` / `tkAt c rs j` are the lexer state after `j` more
-tokens and the token answered there; `step_ok` (induction on the token list, the lexer state as invariant) shows that `NextToken`
-follows them and that every step has what a `Run` asks for against the final line table; `renderRun` packs it up.
+C03 at character level, lexer side, shared pieces: what follows a canonical item (`renderFrom_head`), what a `Run` asks of every
+step of the lexer (`StepOK`), `lexAll` along a `Run` (`lexAll_run`), and token types of items.
+(The walk along a canonical token list that used to be here is now the special case `ofRToks` of the walk along a document:
+Proofs/RenderGapRun.lean, Proofs/RenderGapEmbed.lean.)
 -/
 import ZnVerif.Proofs.RenderLexLayout
 import ZnVerif.Proofs.LexRun
@@ -36,502 +34,24 @@ theorem renderFrom_head (rs : List RTok) : ∃ d r, renderFrom false rs = d :: r
       cases h
       rw [hnl] at h2; cases h2
 
-theorem linesFrom_head (pos s k : Nat) (rs : List RTok) : ∃ e rest, linesFrom pos s k rs = closedLine s k e :: rest := by
-  induction rs generalizing pos with
-  | nil => exact ⟨_, _, rfl⟩
-  | cons r rs ih =>
-    unfold linesFrom
-    cases r.nl with
-    | none => exact ih _
-    | some k' => exact ⟨_, _, rfl⟩
-
-/-- the line after the current one starts beyond the current position -/
-theorem linesFrom_second (pos s k : Nat) (rs : List RTok) : ∀ b, (linesFrom pos s k rs)[1]? = some b → pos < b.startIdx := by
-  induction rs generalizing pos with
-  | nil =>
-    intro b h
-    simp [linesFrom] at h
-    rw [← h]; simp [closedLine]
-  | cons r rs ih =>
-    intro b h
-    unfold linesFrom at h
-    cases hnl : r.nl with
-    | none =>
-      simp only [hnl] at h
-      have := ih _ b h
-      omega
-    | some k' =>
-      simp only [hnl] at h
-      obtain ⟨e, rest, he⟩ := linesFrom_head (pos + 1 + k' + r.item.spelling.length) (pos + 1) k' rs
-      rw [he] at h
-      simp at h
-      rw [← h]; simp [closedLine]
-
-/-- every line after the current one starts beyond the current position, and they come in increasing order -/
-theorem linesFrom_sorted (pos s k : Nat) (rs : List RTok) (hs : s ≤ pos) :
-    (linesFrom pos s k rs).Pairwise (fun a b => a.startIdx < b.startIdx) ∧
-    ∀ b ∈ (linesFrom pos s k rs).tail, pos < b.startIdx := by
-  induction rs generalizing pos s k with
-  | nil => simp [linesFrom, closedLine]; omega
-  | cons r rs ih =>
-    unfold linesFrom
-    cases r.nl with
-    | none =>
-      obtain ⟨h1, h2⟩ := ih (pos + 1 + r.item.spelling.length) s k (by omega)
-      exact ⟨h1, fun b hb => by have := h2 b hb; omega⟩
-    | some k' =>
-      obtain ⟨h1, h2⟩ := ih (pos + 1 + k' + r.item.spelling.length) (pos + 1) k' (by omega)
-      obtain ⟨e, rest, he⟩ := linesFrom_head (pos + 1 + k' + r.item.spelling.length) (pos + 1) k' rs
-      dsimp only
-      rw [he] at h1 h2 ⊢
-      refine ⟨?_, ?_⟩
-      · rw [List.pairwise_cons]
-        refine ⟨?_, h1⟩
-        intro b hb
-        rcases List.mem_cons.mp hb with rfl | hb
-        · simp [closedLine]; omega
-        · have := h2 b (by simpa using hb)
-          simp [closedLine]; omega
-      · intro b hb
-        rcases List.mem_cons.mp (by simpa using hb) with rfl | hb
-        · simp [closedLine]
-        · have := h2 b (by simpa using hb)
-          omega
-
-/-! ### walking along the token list -/
-
-structure Ctx where
-  ity : Nat
-  dn : List LineInfo
-  s : Nat
-  k : Nat
-  pos : Nat
-
-namespace Ctx
-
-def state (src : Array Nat) (c : Ctx) : Lexer := bst src c.ity c.dn c.s c.k c.pos
-
-def final (src : Array Nat) (c : Ctx) : Lexer := fst src c.ity (c.dn ++ [closedLine c.s c.k c.pos]) (c.pos + 1)
-
-def next (c : Ctx) (r : RTok) : Ctx :=
-  match r.nl with
-  | none => { c with pos := c.pos + 1 + r.item.spelling.length }
-  | some k' =>
-    { ity := ityAfter c.ity k', dn := c.dn ++ [closedLine c.s c.k c.pos], s := c.pos + 1, k := k',
-      pos := c.pos + 1 + k' + r.item.spelling.length }
-
-def tok (c : Ctx) (r : RTok) : Token := r.item.token (c.pos + (lead false r.nl).length)
-
-/-- the final line table, as seen from here -/
-def table (c : Ctx) (rs : List RTok) : List LineInfo := c.dn ++ linesFrom c.pos c.s c.k rs
-
-end Ctx
-
 def eofTok (n : Nat) : Token := { type := cTypeEOF, startIdx := n, endIdx := n }
-
-def stAt (src : Array Nat) : Ctx → List RTok → Nat → Lexer
-  | c, _, 0 => c.state src
-  | c, [], _ + 1 => c.final src
-  | c, r :: rs, j + 1 => stAt src (c.next r) rs j
-
-def tkAt : Ctx → List RTok → Nat → Token
-  | c, [], _ => eofTok (c.pos + 1)
-  | c, r :: _, 0 => c.tok r
-  | c, r :: rs, j + 1 => tkAt (c.next r) rs j
-
-theorem stAt_zero (src : Array Nat) (c : Ctx) (rs : List RTok) : stAt src c rs 0 = c.state src := by cases rs <;> rfl
-theorem stAt_nil_succ (src : Array Nat) (c : Ctx) (j : Nat) : stAt src c [] (j + 1) = c.final src := rfl
-theorem stAt_cons_succ (src : Array Nat) (c : Ctx) (r : RTok) (rs : List RTok) (j : Nat) :
-    stAt src c (r :: rs) (j + 1) = stAt src (c.next r) rs j := rfl
-theorem tkAt_nil (c : Ctx) (j : Nat) : tkAt c [] j = eofTok (c.pos + 1) := rfl
-theorem tkAt_cons_zero (c : Ctx) (r : RTok) (rs : List RTok) : tkAt c (r :: rs) 0 = c.tok r := rfl
-theorem tkAt_cons_succ (c : Ctx) (r : RTok) (rs : List RTok) (j : Nat) : tkAt c (r :: rs) (j + 1) = tkAt (c.next r) rs j := rfl
-
-/-- the invariant between two tokens -/
-structure Inv (src : Array Nat) (c : Ctx) (rs : List RTok) : Prop where
-  text : here (c.state src) = renderFrom false rs
-  ity : ItyOK c.ity c.k
-  sk : c.s + c.k ≤ c.pos
-  wf : WFFrom rs
-
-theorem table_next (c : Ctx) (r : RTok) (rs : List RTok) : (c.next r).table rs = c.table (r :: rs) := by
-  unfold Ctx.table Ctx.next
-  cases hnl : r.nl with
-  | none => simp [linesFrom, hnl]
-  | some k' => simp [linesFrom, hnl]
-
-theorem Inv.next {src : Array Nat} {c : Ctx} {r : RTok} {rs : List RTok} (h : Inv src c (r :: rs)) : Inv src (c.next r) rs := by
-  obtain ⟨ht, hi, hsk, hw⟩ := h
-  refine ⟨?_, ?_, ?_, hw.2.2⟩
-  · have e : here ((c.next r).state src) = (here (c.state src)).drop ((lead false r.nl).length + r.item.spelling.length) := by
-      show src.toList.drop (c.next r).pos = (src.toList.drop c.pos).drop _
-      rw [List.drop_drop]
-      congr 1
-      unfold Ctx.next
-      cases hnl : r.nl with
-      | none => simp [lead]; omega
-      | some k' => simp [lead]; omega
-    rw [e, ht]
-    simp only [renderFrom]
-    exact List.drop_left' (by simp)
-  · unfold Ctx.next
-    cases r.nl with
-    | none => exact hi
-    | some k' => exact hi.after k'
-  · unfold Ctx.next
-    cases r.nl with
-    | none => dsimp only; omega
-    | some k' => dsimp only; omega
-
-/-- the delimiter that follows the item `r` -/
-theorem delim_after {r : RTok} {rs : List RTok} (hw : WFFrom (r :: rs)) :
-    ∃ d t, renderFrom false rs = d :: t ∧ (d = runeSP ∨ (d = runeLF ∧ r.item.tight = false)) := by
-  obtain ⟨d, t, h1, h2, h3⟩ := renderFrom_head rs
-  refine ⟨d, t, h1, ?_⟩
-  rcases h2 with h2 | h2
-  · exact Or.inl h2
-  · by_cases ht : r.item.tight = true
-    · exact Or.inl (h3 (hw.2.1 ht))
-    · exact Or.inr ⟨h2, by simpa using ht⟩
-
-theorem next_none {c : Ctx} {r : RTok} (h : r.nl = none) :
-    c.next r = { c with pos := c.pos + 1 + r.item.spelling.length } := by
-  unfold Ctx.next; rw [h]
-
-theorem next_some {c : Ctx} {r : RTok} {k' : Nat} (h : r.nl = some k') :
-    c.next r = ⟨ityAfter c.ity k', c.dn ++ [closedLine c.s c.k c.pos], c.pos + 1, k',
-      c.pos + 1 + k' + r.item.spelling.length⟩ := by
-  unfold Ctx.next; rw [h]
-
-/-- **one step of the lexer along the rendering** -/
-theorem nextToken_step (src : Array Nat) (c : Ctx) (r : RTok) (rs : List RTok) (h : Inv src c (r :: rs)) :
-    nextToken (c.state src) = (.ok (c.tok r), (c.next r).state src) := by
-  obtain ⟨ht, hi, hsk, hw⟩ := h
-  obtain ⟨d, t, hd1, hd2⟩ := delim_after hw
-  cases hnl : r.nl with
-  | none =>
-    have h' : here (bst src c.ity c.dn c.s c.k c.pos) = runeSP :: (r.item.spelling ++ d :: t) := by
-      show here (c.state src) = _
-      rw [ht]; simp [renderFrom, lead, hnl, hd1]
-    have := nextToken_bst_space r.item hw.1 src c.ity c.dn c.s c.k c.pos d t hd2 h'
-    rw [next_none hnl]
-    unfold Ctx.tok
-    rw [hnl]
-    exact this
-  | some k' =>
-    have h' : here (bst src c.ity c.dn c.s c.k c.pos) =
-        runeLF :: (List.replicate k' runeTAB ++ (r.item.spelling ++ d :: t)) := by
-      show here (c.state src) = _
-      rw [ht]; simp [renderFrom, lead, hnl, hd1]
-    have := nextToken_break r.item hw.1 src c.ity c.dn c.s c.k c.pos k' d t hi hsk hd2 h'
-    rw [next_some hnl]
-    unfold Ctx.tok
-    rw [hnl]
-    have e1 : c.pos + (lead false (some k')).length = c.pos + 1 + k' := by simp [lead]; omega
-    rw [e1]
-    exact this
-
-theorem src_size_of_inv {src : Array Nat} {c : Ctx} (h : Inv src c []) : src.size = c.pos + 1 := by
-  have := congrArg List.length h.text
-  simp [here, Ctx.state, bst, lx, renderFrom] at this
-  omega
-
-theorem nextToken_last (src : Array Nat) (c : Ctx) (h : Inv src c []) :
-    nextToken (c.state src) = (.ok (eofTok (c.pos + 1)), c.final src) :=
-  nextToken_eof src c.ity c.dn c.s c.k c.pos h.ity h.sk h.text
-
-theorem nextToken_final (src : Array Nat) (c : Ctx) (h : Inv src c []) :
-    nextToken (c.final src) = (.ok (eofTok (c.pos + 1)), c.final src) :=
-  nextToken_eof_again src c.ity _ (c.pos + 1) h.ity.cases (src_size_of_inv h)
 
 /-! ### what a `Run` asks of every step -/
 
-/-- from `l`, the token `t` is answered and the lexer becomes `l'`; `F` is the final line table -/
-structure StepOK (F : List LineInfo) (l : Lexer) (t : Token) (l' : Lexer) : Prop where
+/-- from `l`, the token `t` — which starts on line `sl` — is answered and the lexer becomes `l'`; `F` is the final line table -/
+structure StepOK (F : List LineInfo) (l : Lexer) (t : Token) (sl : Nat) (l' : Lexer) : Prop where
   step : nextToken l = (.ok t, l')
   pos : 0 < l'.lines.size
   mono : l.lines.size ≤ l'.lines.size
   pre : ∀ i, i < l'.lines.size →
     l'.lines[i]?.map (·.startIdx) = F[i]?.map (·.startIdx) ∧ l'.lines[i]?.map (·.indents) = F[i]?.map (·.indents)
-  onLast : ∀ a, F[l'.lines.size - 1]? = some a → a.startIdx ≤ t.startIdx
+  sl_lt : sl < l'.lines.size
+  sl_ge : l.lines.size - 1 ≤ sl
+  onStart : ∀ a, F[sl]? = some a → a.startIdx ≤ t.startIdx
+  beforeNextStart : ∀ b, F[sl + 1]? = some b → t.startIdx < b.startIdx
+  onLast : ∀ a, F[l'.lines.size - 1]? = some a → a.startIdx ≤ t.endIdx
   span : t.startIdx ≤ t.endIdx
   beforeNext : ∀ b, F[l'.lines.size]? = some b → t.endIdx < b.startIdx
-
-theorem state_lines (src : Array Nat) (c : Ctx) : (c.state src).lines = (c.dn ++ [openLine c.s c.k]).toArray := rfl
-
-theorem final_lines (src : Array Nat) (c : Ctx) :
-    (c.final src).lines = (c.dn ++ [closedLine c.s c.k c.pos] ++ [closedLine (c.pos + 1) 0 (c.pos + 1)]).toArray := rfl
-
-/-- the table known between two tokens against the final table -/
-theorem state_pre (src : Array Nat) (c : Ctx) (rs : List RTok) : ∀ i, i < (c.state src).lines.size →
-    (c.state src).lines[i]?.map (·.startIdx) = (c.table rs)[i]?.map (·.startIdx) ∧
-    (c.state src).lines[i]?.map (·.indents) = (c.table rs)[i]?.map (·.indents) := by
-  intro i hi
-  obtain ⟨e, rest, he⟩ := linesFrom_head c.pos c.s c.k rs
-  rw [state_lines] at hi ⊢
-  unfold Ctx.table
-  rw [he]
-  simp only [List.size_toArray, List.length_append, List.length_cons, List.length_nil] at hi
-  simp only [List.getElem?_toArray]
-  by_cases h1 : i < c.dn.length
-  · rw [List.getElem?_append_left h1, List.getElem?_append_left h1]; exact ⟨rfl, rfl⟩
-  · have : i = c.dn.length := by omega
-    subst this
-    simp [openLine, closedLine]
-
-theorem state_at (c : Ctx) (rs : List RTok) :
-    (∃ e, (c.table rs)[c.dn.length]? = some (closedLine c.s c.k e)) ∧
-    ∀ b, (c.table rs)[c.dn.length + 1]? = some b → c.pos < b.startIdx := by
-  obtain ⟨e, rest, he⟩ := linesFrom_head c.pos c.s c.k rs
-  constructor
-  · exact ⟨e, by unfold Ctx.table; rw [he]; simp⟩
-  · intro b hb
-    apply linesFrom_second c.pos c.s c.k rs b
-    unfold Ctx.table at hb
-    rw [List.getElem?_append_right (by omega)] at hb
-    simpa using hb
-
-/-- a step that ends between two tokens -/
-theorem stepOK_state (src : Array Nat) (l : Lexer) (t : Token) (c : Ctx) (rs : List RTok)
-    (hstep : nextToken l = (.ok t, c.state src)) (hmono : l.lines.size ≤ c.dn.length + 1)
-    (hs : c.s ≤ t.startIdx) (hspan : t.startIdx ≤ t.endIdx) (he : t.endIdx = c.pos) :
-    StepOK (c.table rs) l t (c.state src) := by
-  have hsize : (c.state src).lines.size = c.dn.length + 1 := by rw [state_lines]; simp
-  obtain ⟨⟨e, h1⟩, h2⟩ := state_at c rs
-  refine ⟨hstep, by omega, by omega, state_pre src c rs, ?_, hspan, ?_⟩
-  · intro a ha
-    rw [hsize, Nat.add_sub_cancel, h1] at ha
-    cases ha
-    exact hs
-  · intro b hb
-    rw [hsize] at hb
-    rw [he]
-    exact h2 b hb
-
-/-- a step that ends after the EOF token -/
-theorem stepOK_final (src : Array Nat) (l : Lexer) (c : Ctx)
-    (hstep : nextToken l = (.ok (eofTok (c.pos + 1)), c.final src)) (hmono : l.lines.size ≤ c.dn.length + 2) :
-    StepOK (c.table []) l (eofTok (c.pos + 1)) (c.final src) := by
-  have hsize : (c.final src).lines.size = c.dn.length + 2 := by rw [final_lines]; simp
-  have htab : c.table [] = c.dn ++ [closedLine c.s c.k c.pos] ++ [closedLine (c.pos + 1) 0 (c.pos + 1)] := by
-    simp [Ctx.table, linesFrom]
-  refine ⟨hstep, by omega, by omega, ?_, ?_, Nat.le_refl _, ?_⟩
-  · intro i _
-    rw [final_lines, htab]
-    simp
-  · intro a ha
-    rw [hsize, htab] at ha
-    have : (c.dn ++ [closedLine c.s c.k c.pos] ++ [closedLine (c.pos + 1) 0 (c.pos + 1)])[c.dn.length + 2 - 1]? =
-        some (closedLine (c.pos + 1) 0 (c.pos + 1)) := by
-      rw [List.getElem?_append_right (by simp)]
-      simp
-    rw [this] at ha
-    cases ha
-    simp [closedLine, eofTok]
-  · intro b hb
-    rw [hsize, htab] at hb
-    have : (c.dn ++ [closedLine c.s c.k c.pos] ++ [closedLine (c.pos + 1) 0 (c.pos + 1)])[c.dn.length + 2]? = none := by
-      apply List.getElem?_eq_none; simp
-    rw [this] at hb
-    cases hb
-
-theorem tok_facts (c : Ctx) (r : RTok) (hsk : c.s + c.k ≤ c.pos) :
-    (c.next r).s ≤ (c.tok r).startIdx ∧ (c.tok r).startIdx ≤ (c.tok r).endIdx ∧ (c.tok r).endIdx = (c.next r).pos := by
-  unfold Ctx.tok Ctx.next Item.token
-  cases r.nl with
-  | none => simp [lead]; omega
-  | some k' => simp [lead]; omega
-
-theorem next_dn_length (c : Ctx) (r : RTok) : c.dn.length ≤ (c.next r).dn.length ∧ (c.next r).dn.length ≤ c.dn.length + 1 := by
-  unfold Ctx.next
-  cases r.nl <;> simp
-
-/-- **every step along the rendering** -/
-theorem step_ok (src : Array Nat) : ∀ (rs : List RTok) (c : Ctx) (j : Nat), Inv src c rs →
-    StepOK (c.table rs) (stAt src c rs j) (tkAt c rs j) (stAt src c rs (j + 1)) := by
-  intro rs
-  induction rs with
-  | nil =>
-    intro c j h
-    cases j with
-    | zero =>
-      rw [stAt_zero, stAt_nil_succ, tkAt_nil]
-      exact stepOK_final src _ c (nextToken_last src c h) (by rw [state_lines]; simp)
-    | succ j =>
-      rw [stAt_nil_succ, stAt_nil_succ, tkAt_nil]
-      exact stepOK_final src _ c (nextToken_final src c h) (by rw [final_lines]; simp)
-  | cons r rs ih =>
-    intro c j h
-    cases j with
-    | zero =>
-      obtain ⟨t1, t2, t3⟩ := tok_facts c r h.sk
-      have := stepOK_state src (c.state src) (c.tok r) (c.next r) rs (nextToken_step src c r rs h)
-        (by rw [state_lines]; simp; exact (next_dn_length c r).1) t1 t2 t3
-      rw [table_next] at this
-      rw [stAt_zero, stAt_cons_succ, stAt_zero, tkAt_cons_zero]
-      exact this
-    | succ j =>
-      have := ih (c.next r) j h.next
-      rw [table_next] at this
-      rw [stAt_cons_succ, stAt_cons_succ, tkAt_cons_succ]
-      exact this
-
-theorem tkAt_eof (src : Array Nat) : ∀ (rs : List RTok) (c : Ctx) (j : Nat), Inv src c rs → rs.length ≤ j →
-    tkAt c rs j = eofTok src.size := by
-  intro rs
-  induction rs with
-  | nil => intro c j h _; rw [src_size_of_inv h]; rfl
-  | cons r rs ih =>
-    intro c j h hj
-    obtain ⟨j', rfl⟩ : ∃ j', j = j' + 1 := ⟨j - 1, by simp at hj; omega⟩
-    exact ih (c.next r) j' h.next (by simp at hj; omega)
-
-theorem tkAt_toks : ∀ (rs : List RTok) (c : Ctx), (List.range rs.length).map (tkAt c rs) = toksFrom false c.pos rs := by
-  intro rs
-  induction rs with
-  | nil => intro c; rfl
-  | cons r rs ih =>
-    intro c
-    have hpos : (c.next r).pos = c.pos + (lead false r.nl).length + r.item.spelling.length := by
-      unfold Ctx.next
-      cases r.nl with
-      | none => simp [lead]
-      | some k' => simp [lead]; omega
-    simp only [List.length_cons, List.range_succ_eq_map, List.map_cons, List.map_map, toksFrom]
-    congr 1
-    rw [← hpos, ← ih (c.next r)]
-    rfl
-
-theorem stAt_final_lines (src : Array Nat) : ∀ (rs : List RTok) (c : Ctx),
-    (stAt src c rs (rs.length + 1)).lines = (c.table rs).toArray := by
-  intro rs
-  induction rs with
-  | nil =>
-    intro c
-    rw [stAt_nil_succ, final_lines]
-    simp [Ctx.table, linesFrom]
-  | cons r rs ih =>
-    intro c
-    rw [List.length_cons, stAt_cons_succ, ih, table_next]
-
-/-! ### the `Run` of a rendering -/
-
-/-- the account after the first token -/
-def ctx0 (r0 : RTok) (k0 : Nat) : Ctx :=
-  ⟨ityAfter cIndentUnknown k0, [], 0, k0, k0 + r0.item.spelling.length⟩
-
-def runSt (rts : List RTok) : Nat → Lexer
-  | 0 => mkLexer (renderTokens rts)
-  | j + 1 =>
-    match rts with
-    | [] => mkLexer []
-    | r0 :: rs => stAt (renderTokens (r0 :: rs)).toArray (ctx0 r0 (r0.nl.getD 0)) rs j
-
-def runTk (rts : List RTok) : Nat → Token
-  | 0 =>
-    match rts with
-    | [] => eofTok 0
-    | r0 :: _ => r0.item.token (r0.nl.getD 0)
-  | j + 1 =>
-    match rts with
-    | [] => eofTok 0
-    | r0 :: rs => tkAt (ctx0 r0 (r0.nl.getD 0)) rs j
-
-theorem render_first (r0 : RTok) (k0 : Nat) (rs : List RTok) (h : r0.nl = some k0) :
-    renderTokens (r0 :: rs) = List.replicate k0 runeTAB ++ (r0.item.spelling ++ renderFrom false rs) := by
-  simp [renderTokens, renderFrom, lead, h]
-
-theorem inv0 (r0 : RTok) (k0 : Nat) (rs : List RTok) (h : r0.nl = some k0) (hw : WFFrom (r0 :: rs)) :
-    Inv (renderTokens (r0 :: rs)).toArray (ctx0 r0 k0) rs := by
-  refine ⟨?_, ItyOK.after (Or.inr ⟨rfl, rfl⟩ : ItyOK cIndentUnknown 0) k0, by simp [ctx0], hw.2.2⟩
-  show (renderTokens (r0 :: rs)).toArray.toList.drop (k0 + r0.item.spelling.length) = _
-  rw [render_first r0 k0 rs h]
-  rw [← List.append_assoc]
-  exact List.drop_left' (by simp)
-
-/-- every step of the lexer on the rendering, the first one included -/
-theorem run_step_ok (rts : List RTok) (hwf : WF rts) (j : Nat) :
-    StepOK (lineTable rts) (runSt rts j) (runTk rts j) (runSt rts (j + 1)) := by
-  obtain ⟨⟨r0, rs, k0, rfl, hk⟩, hw⟩ := hwf
-  have hk0 : r0.nl.getD 0 = k0 := by rw [hk]; rfl
-  have hinv := inv0 r0 k0 rs hk hw
-  have htab : (ctx0 r0 k0).table rs = lineTable (r0 :: rs) := by
-    simp [Ctx.table, ctx0, lineTable, hk0]
-  cases j with
-  | zero =>
-    obtain ⟨d, t, hd1, hd2⟩ := delim_after hw
-    have hfirst := nextToken_first r0.item hw.1 (renderTokens (r0 :: rs)) k0 d t hd2
-      (by rw [render_first r0 k0 rs hk, hd1])
-    have := stepOK_state (renderTokens (r0 :: rs)).toArray (mkLexer (renderTokens (r0 :: rs))) (r0.item.token k0)
-      (ctx0 r0 k0) rs hfirst (by simp [mkLexer]) (by simp [ctx0]) (by simp [Item.token]) (by simp [Item.token, ctx0])
-    rw [htab] at this
-    simpa [runSt, runTk, hk0, stAt_zero] using this
-  | succ j =>
-    have := step_ok (renderTokens (r0 :: rs)).toArray rs (ctx0 r0 k0) j hinv
-    rw [htab] at this
-    simpa [runSt, runTk, hk0] using this
-
-theorem lineTable_sorted (rts : List RTok) : (lineTable rts).Pairwise (fun a b => a.startIdx < b.startIdx) := by
-  cases rts with
-  | nil => simp [lineTable]
-  | cons r rs => exact (linesFrom_sorted _ 0 _ rs (by omega)).1
-
-theorem runTk_eof (rts : List RTok) (hwf : WF rts) (j : Nat) (hj : rts.length ≤ j) : runTk rts j = (layoutOf rts).eof := by
-  obtain ⟨⟨r0, rs, k0, rfl, hk⟩, hw⟩ := hwf
-  have hk0 : r0.nl.getD 0 = k0 := by rw [hk]; rfl
-  obtain ⟨j', rfl⟩ : ∃ j', j = j' + 1 := ⟨j - 1, by simp at hj; omega⟩
-  have := tkAt_eof (renderTokens (r0 :: rs)).toArray rs (ctx0 r0 k0) j' (inv0 r0 k0 rs hk hw) (by simp at hj; omega)
-  simp only [runTk, hk0, this]
-  simp [eofTok, Layout.eof, layoutOf]
-
-/-- **the lexer on a canonical rendering, as a `Run`** against the layout the rendering determines -/
-def renderRun (rts : List RTok) (hwf : WF rts) : Run (layoutOf rts) where
-  st := runSt rts
-  tk := runTk rts
-  N := rts.length
-  step j := (run_step_ok rts hwf j).step
-  eof j hj := runTk_eof rts hwf j hj
-  sorted i j a b hij ha hb := by
-    have hs := lineTable_sorted rts
-    simp only [layoutOf, List.getElem?_toArray] at ha hb
-    obtain ⟨hi, rfl⟩ := List.getElem?_eq_some_iff.mp ha
-    obtain ⟨hj, rfl⟩ := List.getElem?_eq_some_iff.mp hb
-    exact List.pairwise_iff_getElem.mp hs i j hi hj hij
-  size_pos j := (run_step_ok rts hwf j).pos
-  size_mono j := (run_step_ok rts hwf (j + 1)).mono
-  pre j i hi := by
-    have := (run_step_ok rts hwf j).pre i hi
-    simpa [layoutOf] using this
-  onLast j a ha := by
-    apply (run_step_ok rts hwf j).onLast a
-    simpa [layoutOf] using ha
-  span j := (run_step_ok rts hwf j).span
-  beforeNext j b hb := by
-    apply (run_step_ok rts hwf j).beforeNext b
-    simpa [layoutOf] using hb
-
-theorem renderRun_st0 (rts : List RTok) (hwf : WF rts) : (renderRun rts hwf).st 0 = mkLexer (renderTokens rts) := rfl
-
-theorem renderRun_toks (rts : List RTok) (hwf : WF rts) : (renderRun rts hwf).toks = tokensOf rts := by
-  obtain ⟨⟨r0, rs, k0, rfl, hk⟩, hw⟩ := hwf
-  have hk0 : r0.nl.getD 0 = k0 := by rw [hk]; rfl
-  show (List.range (r0 :: rs).length).map (runTk (r0 :: rs)) = _
-  simp only [List.length_cons, List.range_succ_eq_map, List.map_cons, List.map_map, tokensOf, toksFrom]
-  have h1 : runTk (r0 :: rs) 0 = r0.item.token (0 + (lead true r0.nl).length) := by
-    simp [runTk, hk, lead]
-  have h2 : (runTk (r0 :: rs) ∘ Nat.succ) = tkAt (ctx0 r0 k0) rs := by
-    funext j; simp [runTk, hk0]
-  rw [h1, h2, tkAt_toks]
-  simp [ctx0, hk, lead]
-
-theorem renderRun_final_lines (rts : List RTok) (hwf : WF rts) :
-    ((renderRun rts hwf).st (rts.length + 1)).lines = (lineTable rts).toArray := by
-  obtain ⟨⟨r0, rs, k0, rfl, hk⟩, hw⟩ := hwf
-  have hk0 : r0.nl.getD 0 = k0 := by rw [hk]; rfl
-  show (runSt (r0 :: rs) ((r0 :: rs).length + 1)).lines = _
-  simp only [runSt, List.length_cons, hk0]
-  rw [stAt_final_lines]
-  simp [Ctx.table, ctx0, lineTable, hk0]
 
 /-! ### `lexAll` along a `Run` -/
 
@@ -574,6 +94,7 @@ theorem item_type_ne_eof (it : Item) (hw : it.WF) : it.type ≠ cTypeEOF := by
   | name cs => simp [Item.type]; decide
   | quoted cs => simp [Item.type]; decide
   | text q t => cases q <;> simp [Item.type, Spec.Literal.Quote.type] <;> decide
+  | cmt c => exact hw.elim
 
 theorem toksFrom_types : ∀ (rs : List RTok) (first : Bool) (pos : Nat), WFFrom rs →
     ∀ t ∈ toksFrom first pos rs, t.type ≠ cTypeEOF := by
